@@ -327,7 +327,22 @@ class SourceScope(Scope):
     @context_property
     def assigns(self, ctx):
         # type: (EvalCtx) -> dict[Object, dict[str, MultiValue]]
-        result = {}  # type: dict[Object, dict[str, MultiValue]]
+        busy = getattr(self, '_assigns_busy', None)
+        if busy is not None:
+            return busy  # type: ignore[no-any-return]  # asked for while being collected
+
+        # The table is kept for the life of the scope: collect it with recursion
+        # guards of its own, not with those of whatever the caller is evaluating.
+        ctx = type(ctx)(ctx.project)
+        result = self._assigns_busy = {}  # type: dict[Object, dict[str, MultiValue]]
+        try:
+            self._collect_assigns(ctx, result)
+        finally:
+            self._assigns_busy = None
+        return result
+
+    def _collect_assigns(self, ctx, result):
+        # type: (EvalCtx, dict[Object, dict[str, MultiValue]]) -> None
         for _scope, attr, value in self._attr_assigns:
             # logging.getLogger('supp.attr').error('Get attr for %s %s',
             #                                      scope, dump(attr, annotate_fields=False))
@@ -340,8 +355,6 @@ class SourceScope(Scope):
                         attrs[attr.attr].add(assigned_attr)
                     except KeyError:
                         attrs[attr.attr] = MultiValue(assigned_attr)
-
-        return result
 
     def resolve_star_imports(self, project):
         # type: (Project) -> None
